@@ -12,7 +12,7 @@ ENGINES = {
 
 PROP = {
     "engines": ["hist"],
-    "lean_modules": ["AxVerif.Model.Db", "AxVerif.Lemmas.Db"],
+    "lean_modules": ["AxVerif.Model.Db", "AxVerif.Lemmas.Db", "AxVerif.Lemmas.DbSim", "AxVerif.Lemmas.DbHist", "AxVerif.Driver.Hist"],
     "rule": "one case = schema + committed initial rows + 1–4 session programs (begin, 1–3 statements, commit|rollback|drop) "
             "+ one fixed interleaving, stepped through real `Session`s from one thread on a fresh database. Generated: all "
             "interleavings of program pairs when there are ≤ 20 (else 20 sampled), random 3–4-session histories, snapshots "
